@@ -138,7 +138,7 @@ theorem cloneInto_leaf {g : Forest} {R : List HTree} {fs : List CFrame} {c : Nat
       Cloning g' R fs c vc (snocClone g.consolidation K (.node g.next v [])) ∧
       g'.next = g.next + 1 ∧ SameFlags g g' := by
   have w := cl.work v
-  have step := w.anyAppend_fresh adm
+  obtain ⟨_, step⟩ := w.anyAppend_fresh adm
   have cl2 := cl.afterStep v _ (handlesList_snocClone g.consolidation K g.next v)
   have hcons : (g.newNode v).1.consolidation = g.consolidation := rfl
   rw [hcons] at step
@@ -164,7 +164,7 @@ mutual
       · cases v with
         | element e =>
           have w := cl.work (.element e)
-          have step := w.anyAppend_fresh adm
+          obtain ⟨_, step⟩ := w.anyAppend_fresh adm
           have cl2 := cl.afterStep (.element e) _
             (handlesList_snocClone g.consolidation K g.next (.element e))
           have hcons : (g.newNode (.element e)).1.consolidation = g.consolidation := rfl
